@@ -165,8 +165,32 @@ def run_case(kind, q):
                     continue
                 ref = standalone(pipeline, pattern, frames, peaks, zs, q["upsample"])
                 for f in range(len(frames)):
+                    # an exact tie of the maximum (a strip frame narrower than the mask: neighbouring columns see the same pixels) is
+                    # decided by rounding, which differs between two correct runs: where the centres differ and the independent
+                    # float64 reference map has, at the other centre, a value within float32 rounding of its maximum, the entry is
+                    # compared by this rule only
+                    tied = np.zeros(len(peaks), dtype=bool)
+                    ca, cb = np.asarray(res["centers"].data[f]), np.asarray(ref[f][0])
+                    if ca.shape == cb.shape and np.any(ca != cb):
+                        import refimpl
+                        z_ = np.zeros(2) if zs is None else (np.asarray(zs) if np.ndim(zs) == 1 else np.asarray(zs)[f])
+                        pk_ = np.round(peaks).astype(int) + np.round(z_).astype(int)
+                        c_ = pattern.get_crop_size()
+                        for j_ in np.flatnonzero(np.any(ca != cb, axis=1)):
+                            m_ = refimpl.ref_maps(frames[f].astype(np.float64), pattern, pk_[j_:j_ + 1], pipeline)[0]
+                            ok_ = True
+                            for cen_ in (ca[j_], cb[j_]):
+                                rel = (np.asarray(cen_) - pk_[j_] + c_).astype(int)
+                                ok_ &= bool(np.all(rel >= 0) and np.all(rel < 2 * c_)
+                                            and m_[rel[0], rel[1]] >= m_.max() - 2e-4 * max(1.0, abs(m_.max())))
+                            tied[j_] = ok_
                     for nm, ri in zip(("centers", "refineds", "peak_values", "peak_elevations"), range(4)):
                         a, b = np.asarray(res[nm].data[f], dtype=np.float64), np.asarray(ref[f][ri], dtype=np.float64)
+                        if tied.any() and a.shape == b.shape and len(a) == len(tied):
+                            if nm == "peak_values":
+                                pass                      # the height is the same at both maximisers
+                            else:
+                                a, b = a[~tied], b[~tied]
                         tol = 0 if nm == "centers" else 2e-4 * np.maximum(1.0, np.abs(b))
                         if np.any(np.abs(a - b) > tol) or not np.isfinite(a).all() and np.isfinite(b).all():
                             msgs.append(f"{cls.__name__} partitions {q['partitions']} limit {q['limit']} backend {backend} "
